@@ -134,6 +134,9 @@ func main() {
 		if *tier == "thorough" && rs.Canary != nil {
 			runCanary(rs, *repo, rep)
 		}
+		if *tier == "thorough" {
+			runSeedCanaries(rs, *repo, *verif, rep)
+		}
 	}()
 	if *dump {
 		for _, o := range rep.Obs {
